@@ -20,15 +20,15 @@ import (
 
 type tierCfg struct {
 	// Ranges: one [lo,hi] per harness parameter; instances = cartesian product.
-	Ranges   [][2]int `json:"ranges"`
+	Ranges [][2]int `json:"ranges"`
 	// Instances: explicit argument tuples (used instead of Ranges when present).
 	Instances [][]int `json:"instances,omitempty"`
 	Solver    string  `json:"solver,omitempty"`
-	MaxSteps int      `json:"max_steps,omitempty"`
-	MaxDecs  int      `json:"max_decs,omitempty"`
-	MaxPaths int      `json:"max_paths,omitempty"`
-	MaxConc  int      `json:"max_conc,omitempty"`
-	Skip     bool     `json:"skip,omitempty"`
+	MaxSteps  int     `json:"max_steps,omitempty"`
+	MaxDecs   int     `json:"max_decs,omitempty"`
+	MaxPaths  int     `json:"max_paths,omitempty"`
+	MaxConc   int     `json:"max_conc,omitempty"`
+	Skip      bool    `json:"skip,omitempty"`
 }
 
 type harnessCfg struct {
